@@ -517,8 +517,38 @@ def int_to_bytes(I, v, length, order, signed=False):
     return SBytes(be_bytes(x, length) if order == "big" else le_bytes(x, length), "bytes")
 
 
+def _pow2(v):
+    return v > 0 and (v & (v - 1)) == 0
+
+
+def _shift_mask_form(x):
+    """If x is syntactically ((y div A) mod M) / (y mod M) / (y div A) with A, M powers of two,
+    return (y, A, M) (M None when there is no modulus); else (x, 1, None)."""
+    y, A, M = x, 1, None
+    if z3.is_app(y) and y.decl().kind() == z3.Z3_OP_MOD and z3.is_int_value(y.arg(1)) and _pow2(y.arg(1).as_long()):
+        M = y.arg(1).as_long()
+        y = y.arg(0)
+    if z3.is_app(y) and y.decl().kind() == z3.Z3_OP_IDIV and z3.is_int_value(y.arg(1)) and _pow2(y.arg(1).as_long()):
+        A = y.arg(1).as_long()
+        y = y.arg(0)
+    return y, A, M
+
+
+def _byte_of(x, shift):
+    """octet number `shift` (counted from the least significant) of x, normalised so that
+    (t >> 32) & 0xFFFF and t itself yield syntactically equal octet terms:
+    ((y div A) mod M) div 256**s mod 256  ==  (y div (A * 256**s)) mod 256   when 256**(s+1) <= M."""
+    y, A, M = _shift_mask_form(x)
+    if M is None or 256 ** (shift + 1) <= M:
+        d = A * 256**shift
+        return simp((y / d) % 256) if d > 1 else simp(y % 256)
+    if M is not None and 256**shift >= M:
+        return z3.IntVal(0)
+    return simp((x / (256**shift)) % 256) if shift else simp(x % 256)
+
+
 def be_bytes(x, n):
-    units = [z3.Unit(simp((x / (256 ** (n - 1 - k))) % 256)) for k in range(n)]
+    units = [z3.Unit(_byte_of(x, n - 1 - k)) for k in range(n)]
     if not units:
         return z3.Empty(S.SeqI)
     return units[0] if n == 1 else z3.Concat(*units)
